@@ -306,6 +306,17 @@ impl Deref for HashableNode<'_> {
 ///
 /// # Panics
 /// Panics if `a.is_empty()`. Append nodes instead.
+/// Verification hook: exposes the private node-diffing routine.
+#[cfg(feature = "verif")]
+#[doc(hidden)]
+pub fn verif_reconcile_fragments(
+    parent: &web_sys::Node,
+    a: &mut [web_sys::Node],
+    b: &[web_sys::Node],
+) {
+    reconcile_fragments(parent, a, b)
+}
+
 fn reconcile_fragments(parent: &web_sys::Node, a: &mut [web_sys::Node], b: &[web_sys::Node]) {
     debug_assert!(!a.is_empty(), "a cannot be empty");
 
